@@ -85,6 +85,50 @@ Proof.
   cbn [run_calls asked_all]. rewrite call_cleared. destruct (asked id mo); now rewrite IH.
 Qed.
 
+(* ---------- clones: a handle cloned while modifiers are pending on it ----------
+   Ldap::clone() hands out a handle with NO pending modifiers (src/ldap.rs impl Clone: timeout, controls, search_opts reset), and what
+   is pending on the original stays there for the original's next operation. A step is either a call on the base handle, or: set [mb]
+   on the base handle (left pending), clone it, set [m] on the clone and invoke the operation on the clone (which is then dropped). *)
+Inductive cstep := OnBase (m : mods) (o : opspec) | OnClone (mb m : mods) (o : opspec).
+Definition cstep_run (st : handle * Z) (c : cstep) : (handle * Z) * option tree :=
+  match c with
+  | OnBase m o => call true true st (m, o)
+  | OnClone mb m o =>
+      let '(h0, id) := st in
+      let hb := apply_mods h0 mb in                        (* pending on the base handle *)
+      let '((_, id'), out) := call true true (cleared, id) (m, o) in      (* the clone starts with nothing pending; ids are shared *)
+      ((hb, id'), out) end.
+Fixpoint run_csteps (st : handle * Z) (l : list cstep) : list (option tree) :=
+  match l with [] => [] | c :: r => let '(st', out) := cstep_run st c in out :: run_csteps st' r end.
+(* what the caller asked for, without any handle: [pend] = the modifiers set on the base handle since its last own operation *)
+Definition overlay (p m : mods) : mods :=
+  {| m_ctrls := match m_ctrls m with Some c => Some c | None => m_ctrls p end;
+     m_timeout := match m_timeout m with Some t => Some t | None => m_timeout p end;
+     m_opts := match m_opts m with Some o => Some o | None => m_opts p end |}.
+Definition no_mods := {| m_ctrls := None; m_timeout := None; m_opts := None |}.
+Fixpoint asked_csteps (pend : mods) (id : Z) (l : list cstep) : list (option tree) :=
+  match l with [] => []
+  | OnBase m o :: r => match asked id (overlay pend m, o) with Some t => Some t :: asked_csteps no_mods (id + 1)%Z r | None => None :: asked_csteps no_mods id r end
+  | OnClone mb m o :: r => match asked id (m, o) with Some t => Some t :: asked_csteps (overlay pend mb) (id + 1)%Z r | None => None :: asked_csteps (overlay pend mb) id r end
+  end.
+Definition handle_of (p : mods) : handle := {| h_ctrls := m_ctrls p; h_timeout := m_timeout p; h_opts := m_opts p |}.
+Lemma apply_handle_of p m : apply_mods (handle_of p) m = handle_of (overlay p m).
+Proof. reflexivity. Qed.
+Lemma call_handle_of p id m o : call true true (handle_of p, id) (m, o) =
+  (match asked id (overlay p m, o) with Some _ => (cleared, (id + 1)%Z) | None => (cleared, id) end, asked id (overlay p m, o)).
+Proof.
+  rewrite <- (call_cleared id (overlay p m, o)). unfold call. rewrite apply_handle_of, apply_cleared. reflexivity.
+Qed.
+(* C02 with clones: an operation invoked on a clone carries exactly the modifiers set on the clone - nothing that was pending on the
+   handle it was cloned from - and what was pending there reaches exactly the original's next operation *)
+Theorem c02_clones : forall l pend id, run_csteps (handle_of pend, id) l = asked_csteps pend id l.
+Proof.
+  induction l as [|c r IH]; intros pend id; [reflexivity|]. destruct c as [m o|mb m o]; cbn [run_csteps asked_csteps cstep_run].
+  - rewrite call_handle_of. destruct (asked id (overlay pend m, o)); change cleared with (handle_of no_mods); now rewrite IH.
+  - rewrite call_cleared, apply_handle_of. destruct (asked id (m, o)); now rewrite IH.
+Qed.
+Print Assumptions c02_clones.
+
 (* the code as it was (F10, F11): search options set before a delete ride on the next search; controls set before a rejected add ride on the next op *)
 Definition so1 := {| deref := 3; typesonly := false; timelimit := 0; sizelimit := 7 |}.
 Definition none_m := {| m_ctrls := None; m_timeout := None; m_opts := None |}.
